@@ -157,6 +157,13 @@ pub fn run(ctx: &Ctx, out: &mut Out) {
                 None => out.count("goal_out_of_fragment"),
             }
         }
+        // the recursive solver's fixed-point framework vs its Lean model (FixedPoint.lean) on the
+        // plain history of the single-atom goals: ties Props/C05fp.lean (the model computes the
+        // greatest fixed point and caches nothing provisional) to the code on this very input
+        if text.contains("impl G for N") {
+            let atoms: Vec<String> = goals.iter().filter(|g| !g.contains(',') && !g.contains("not")).cloned().collect();
+            crate::ops::fp::plain_history_case(out, &text, &atoms, "C05");
+        }
         for (name, choice) in solver_choices() {
             // one solver instance for the whole sequence (cache / table reuse), then fresh instances
             let shared = ChalkDatabase::with(&text, choice);
